@@ -1,0 +1,44 @@
+//go:build verif
+
+package format
+
+// Contracts for the govc verifier (/verif/DESIGN.md). Package clause and comments only.
+//
+// C04 kernel: what the formatter writes for a string value. out(b) is the text accumulated by the output
+// builder; sqlQuote(v) = "'" ++ replaceAll(v, "'", "''") ++ "'" is the quoting function PostgreSQL's
+// scanner inverts under standard_conforming_strings (the lexical lemma is exercised by the bounded stand-in
+// with an independent lexer). strcat2 / replaceAll are uninterpreted: the proof pins the code to the spec
+// function, it does not depend on what the functions compute.
+
+//@ import pgsql "github.com/specterops/dawgs/cypher/models/pgsql"
+
+//@ pure func out(b *OutputBuilder) string { b.builder.text }
+//@ pure func sqlQuote(v string) string { strcat2(strcat2("'", replaceAll(v, "'", "''")), "'") }
+//@ pure func stringerText(v any) string
+//@ pure func sv(v any) string { typeof(v) == string ? v.(string) : stringerText(v) }
+
+//@ func (s *OutputBuilder) Write(values ...any)
+//@   requires s != nil && s.builder != nil
+//@   requires forall i int :: 0 <= i && i < len(values) ==> typeof(values[i]) == string
+//@   modifies s.builder.text
+//@   ensures one: len(values) == 1 ==> out(s) == strcat2(old(out(s)), old(sv(values[0])))
+//@   ensures two: len(values) == 2 ==> out(s) == strcat2(strcat2(old(out(s)), old(sv(values[0]))), old(sv(values[1])))
+//@   ensures three: len(values) == 3 ==> out(s) == strcat2(strcat2(strcat2(old(out(s)), old(sv(values[0]))), old(sv(values[1]))), old(sv(values[2])))
+//@   loop 0
+//@     invariant range: -1 <= rangeindex && rangeindex < len(values)
+//@     invariant builder: s.builder == old(s.builder)
+//@     invariant r0: rangeindex == -1 ==> out(s) == old(out(s))
+//@     invariant r1: rangeindex == 0 ==> out(s) == strcat2(old(out(s)), sv(values[0]))
+//@     invariant r2: rangeindex == 1 ==> out(s) == strcat2(strcat2(old(out(s)), sv(values[0])), sv(values[1]))
+//@     invariant r3: rangeindex == 2 ==> out(s) == strcat2(strcat2(strcat2(old(out(s)), sv(values[0])), sv(values[1])), sv(values[2]))
+
+//@ func formatValue(builder *OutputBuilder, value any) error
+//@   requires builder != nil && builder.builder != nil
+//@   nosafety
+//@   ensures quoted: typeof(value) == string ==> result == nil && out(builder) == strcat2(strcat2(strcat2(old(out(builder)), "'"), replaceAll(value.(string), "'", "''")), "'")
+
+//@ func formatLiteral(builder *OutputBuilder, literal pgsql.Literal) error
+//@   requires builder != nil && builder.builder != nil
+//@   nosafety
+//@   ensures null: literal.Null ==> result == nil && out(builder) == strcat2(old(out(builder)), "null")
+//@   ensures quoted: !literal.Null && literal.CastType != pgsql.Interval && typeof(literal.Value) == string ==> result == nil && out(builder) == strcat2(strcat2(strcat2(old(out(builder)), "'"), replaceAll(literal.Value.(string), "'", "''")), "'")
